@@ -131,6 +131,13 @@ pub fn vcvec(k: usize) -> Vec<Vec<i32>> {
         _ => vec![vec![5]],
     }
 }
+pub fn vcres(k: usize) -> Vec<Result<i32, i32>> {
+    match inp(k) {
+        0 => vec![],
+        1 => vec![Ok(1), Ok(2), Ok(4)],
+        _ => vec![Ok(2), Err(9), Ok(3)],
+    }
+}
 pub fn opttup(k: usize) -> Option<(i32, i32)> {
     match inp(k) {
         0 => None,
